@@ -18,7 +18,9 @@ Inductive e2e_op :=
 | XEmfile (tok : nat)                  (* E<tok>: a client connects while accept() fails with EMFILE (one-shot) *)
 | XAdvance (ms : N)                    (* +<ms> *)
 | XKill (tok : nat)                    (* K<tok>: the service call of this connection panics: its worker dies *)
-| XKillConnect (t1 t2 : nat).          (* J<t1>:<t2>: the same, and a client connects to t2 during the teardown *)
+| XKillConnect (t1 t2 : nat)           (* J<t1>:<t2>: the same, and a client connects to t2 during the teardown *)
+| XDie.                                (* D: the worker of the first handle panics in a readiness check — it dies as it is, idle,
+                                          partially loaded or saturated, and its arbiter drops the connections in progress *)
 
 Section E.
 Variable L : Z.
@@ -91,6 +93,18 @@ Definition kill_ops (st : state) (tok : nat) (cid : N) : list op :=
       end
   end.
 
+(* the worker of the first handle dies outside any service call: its connection queue closes (what is unread in it is lost), then
+   the teardown of its arbiter drops every connection in progress, each releasing its guard *)
+Definition die_ops (st : state) : list op :=
+  match handles st with
+  | g :: _ =>
+      match nth_error (ws st) g with
+      | Some w => if w_open w then E (Kill g) :: map (fun c => E (Finish g (c_id c))) (w_picked w) else []
+      | None => []
+      end
+  | [] => []
+  end.
+
 (* next = the id the next connecting client gets *)
 Definition e2e_ops (st : state) (next : N) (o : e2e_op) : list op * N :=
   match o with
@@ -105,6 +119,7 @@ Definition e2e_ops (st : state) (next : N) (o : e2e_op) : list op * N :=
   | XBurst rs => (settled_ops st (map (fun r : bool => E (Command (if r then CResume else CPause))) rs), next)
   | XEmfile tok => (settled_ops st [E (Inject tok EOther); E (Connect tok next)], (next + 1)%N)
   | XAdvance ms => (settled_ops st [Advance ms], next)
+  | XDie => (settled_ops st (die_ops st), next)
   | XKill tok => (settled_ops st (kill_ops st tok next), (next + 1)%N)
   | XKillConnect t1 t2 => (settled_ops st (kill_ops st t1 next ++ [E (Connect t2 (next + 1)%N)]), (next + 2)%N)
   end.
